@@ -61,6 +61,7 @@ type StreamOpts struct {
 	TxnHeavy       bool // >= 40% of items inside transactions
 	TxnInnerSelect bool // some transactions switch the database in their body
 	SelectHeavy    bool
+	HugeInTxn      bool // one transaction of the stream carries a command whose encoding exceeds 1 MiB (the client's write buffer)
 	Burst          bool // long runs of plain commands: database switches and transactions are rare (one item in ~300)
 	BigArgs        bool
 	Reserved       bool // include commands on reserved keys / bookkeeping traffic
@@ -469,6 +470,7 @@ func GenStream(c *simrt.Chooser, o StreamOpts) *Stream {
 		wSel = 25
 	}
 	wCmd := 60
+	hugeDone := false
 	if o.Burst {
 		wCmd, wSel, wTxn = 600, 1, 1
 	}
@@ -499,6 +501,12 @@ func GenStream(c *simrt.Chooser, o StreamOpts) *Stream {
 					selTxn = id
 					selectDB()
 					selTxn = 0
+				}
+				if o.HugeInTxn && !hugeDone && (i == ln-1 || c.Choose("hugehere", 3) == 0) {
+					// a value larger than the RESP writer's buffer (1 MiB), with ordinary commands in front of and behind it
+					hugeDone = true
+					add(KCmd, id, randCase(c, "set"), g.arg(24), c.Bytes("argb", (1<<20)+1+c.Choose("hugelen", 600<<10)))
+					continue
 				}
 				nm, a := g.businessCmd()
 				add(KCmd, id, nm, a...)
